@@ -340,7 +340,7 @@ _BFS = {}
 
 
 def clean_states(tier, L1):
-    """Deterministic BFS (same in every shard): list of (history, canonical-state key, depth)."""
+    """Deterministic BFS over clean histories: list of (history, canonical-state key), shortest history first."""
     key = (tier, L1)
     if key in _BFS:
         return _BFS[key]
@@ -459,8 +459,8 @@ def run_shard(spec, tier):
 
 
 def finalize(res, tier):
-    res.notes.append('clean states are enumerated by the same deterministic BFS in every shard; each shard judges states '
-                     f'index mod {NSHARDS}')
+    res.notes.append('clean states are enumerated once by a deterministic BFS in the parent process (inherited by the forked '
+                     f'workers); shard (phase, s) judges the states with index mod {NSHARDS} == s')
 
 
 # --------------------------------------------------------------------------------------------- replay / observe
